@@ -121,6 +121,17 @@ def finalizeReleasesStable (br : BR) (op : Op) (o : StepOut) : Bool :=
     | some st => st.ctrl = .none && st.paused == br.partition.isSome
   else true
 
+/-- C11 / C05 `finalize_done_means_resumed`: when `Finalize` with finalizing policy WaitResume returns no
+    error (the BatchRelease will report `Completed`), the stable Deployment **as stored after the call** —
+    not whatever object the call happened to look at — really is promoted: not paused, every created
+    replica updated, availability within maxUnavailable (`waitAllUpdatedAndReady`), or it does not exist. -/
+def finalizeDoneMeansResumed (br : BR) (op : Op) (o : StepOut) : Bool :=
+  if op = .fin ∧ o.res = .ok ∧ br.waitResume = true then
+    match o.w.find br.key with
+    | none => true
+    | some st => waitAllUpdatedAndReady st = .ok
+  else true
+
 /-- C05: the plane changes nothing of the stable Deployment but control-info and paused (and the
     generation the API server bumps); paused only in `Finalize`, control-info only in `Initialize` / `Finalize`. -/
 def stableFrame (br : BR) (op : Op) (w : World) (o : StepOut) : Bool :=
@@ -178,7 +189,12 @@ def stepOracles (br : BR) (op : Op) (c : Cfg) (w : World) (exp : Exp) (o : StepO
     ("C01.canary_upgrade_reaches_target", upgradeReachesTarget br op w o),
     ("C05.canary_finalize_releases_stable", finalizeReleasesStable br op o),
     ("C05.canary_finalize_ok_means_gone", finalizeOkMeansGone op o),
+    -- C18: the BatchRelease reaches Completed (and then drops its own finalizer) only through a Finalize that
+    -- returned ok, which therefore must have released every canary Deployment it owns
+    ("C18.canary_finalize_ok_means_gone", finalizeOkMeansGone op o),
     ("C05.canary_stable_frame", stableFrame br op w o),
+    ("C05.canary_finalize_done_means_resumed", finalizeDoneMeansResumed br op o),
+    ("C11.canary_finalize_done_means_resumed", finalizeDoneMeansResumed br op o),
     ("C18.canary_finalizer_only_by_finalize", finalizerOnlyByFinalize op w o),
     ("C18.canary_foreign_untouched", foreignUntouched br w o),
     ("C18.canary_finalize_only_drops_finalizer", finalizeOnlyDropsFinalizer br op w o) ]
